@@ -1,7 +1,7 @@
 (* C14 property theorems.  Nothing but statements closed by `exact`, a pin, and Print Assumptions.
    The driver parses this file's output. *)
 From ZV.Common Require Import Base.
-From ZV.C14 Require Import Model ProofsMem ProofsCodec ProofsCrc.
+From ZV.C14 Require Import Model ProofsMem ProofsCodec ProofsCrc ProofsUtf8.
 Open Scope N_scope.
 
 Definition bytes (l : list N) : Prop := Forall (fun b => b < 256) l.
@@ -34,6 +34,14 @@ Print Assumptions simd_compare_is_scalar.
 Theorem compare_sign_is_lexicographic : forall a b, Z.sgn (compare_s a b) = lex_sign a b.
 Proof. exact compare_s_sign. Qed.
 Print Assumptions compare_sign_is_lexicographic.
+
+
+(* copy: the *_copy_small window scheme (first W-byte window, middle windows, last window overlapping at
+   len - W) writes exactly the source, for every window width W <= len and any prior destination *)
+Theorem copy_windows_is_copy : forall W src dst,
+  (0 < W)%nat -> (W <= length src)%nat -> length dst = length src -> copy_windows W src dst = src.
+Proof. exact copy_windows_correct. Qed.
+Print Assumptions copy_windows_is_copy.
 
 (* CRC32C: table-driven byte loop = bit-serial division by the Castagnoli polynomial *)
 Theorem crc_table_is_polynomial : forall data init, bytes data -> crc_scalar data init = crc_bitwise data init.
@@ -71,8 +79,38 @@ Theorem b64_encoded_length : forall bs, length (b64_encode bs) = ((length bs + 2
 Proof. exact b64_encode_len. Qed.
 Print Assumptions b64_encoded_length.
 
+
+(* UTF-8: the validation automaton (the scalar tier's verdict) accepts exactly the shortest-form
+   encodings of sequences of Unicode scalar values - so overlong forms, surrogates, code points above
+   U+10FFFF, stray continuation bytes and truncated sequences are all rejected, and nothing else is *)
+Theorem utf8_dfa_correct : forall bs,
+  utf8_valid bs = true <-> exists cs, Forall is_scalar cs /\ bs = utf8_encode cs.
+Proof. exact utf8_valid_iff. Qed.
+Check utf8_dfa_correct : forall bs,
+  utf8_valid bs = true <-> exists cs, Forall is_scalar cs /\ bs = utf8_encode cs.
+Print Assumptions utf8_dfa_correct.
+
+(* the vector tiers (skip all-ASCII chunks of W bytes, hand the rest to the scalar validator) give the
+   scalar verdict for every chunk width and every byte string *)
+Theorem utf8_simd_is_scalar : forall W bs, simd_utf8_valid W bs = utf8_valid bs.
+Proof. exact simd_utf8_valid_correct. Qed.
+Print Assumptions utf8_simd_is_scalar.
+
+(* character counting as implemented (bytes minus continuation bytes) counts the scalar values *)
+Theorem utf8_count_is_chars : forall cs, Forall is_scalar cs -> utf8_count (utf8_encode cs) = Some (length cs).
+Proof. exact utf8_count_chars. Qed.
+Print Assumptions utf8_count_is_chars.
+
+Example utf8_rejects_malformed :
+  utf8_valid [192; 128] = false /\ utf8_valid [224; 159; 191] = false /\ utf8_valid [237; 160; 128] = false /\
+  utf8_valid [244; 144; 128; 128] = false /\ utf8_valid [226; 130] = false /\ utf8_valid [128] = false /\
+  utf8_valid (utf8_encode [0; 127; 128; 2047; 2048; 55295; 57344; 65535; 65536; 1114111]) = true /\
+  Forall is_scalar [0; 127; 128; 2047; 2048; 55295; 57344; 65535; 65536; 1114111].
+Proof. repeat split; try (vm_compute; reflexivity). repeat constructor; unfold is_scalar; lia. Qed.
+
 (* hypotheses are inhabited by non-trivial values *)
 Example bytes_inhabited : bytes [0; 127; 128; 255] /\ simd_memchr 16 (repeat 7 40 ++ [200]) 200 = Some 40%nat
   /\ compare_v 16 (repeat 1 17 ++ [128]) (repeat 1 17 ++ [127]) = 1%Z
-  /\ crc_hw [49;50;51;52;53;54;55;56;57] 4294967295 = N.lxor 3808858755 4294967295.
+  /\ crc_hw [49;50;51;52;53;54;55;56;57] 4294967295 = N.lxor 3808858755 4294967295
+  /\ copy_windows 16 (seqN 1 37) (repeat 0 37) = seqN 1 37.
 Proof. repeat split; try (repeat constructor; reflexivity); vm_compute; reflexivity. Qed.
